@@ -32,11 +32,14 @@ const REFRESH_KINDS: &[Kind] = &[
 
 fn gen(rng: &mut Rng, idx: u64, tier: Tier) -> Case {
     let s = 1_000_000i64;
-    let d = *rng.pick(&[1i64, 5, 5, 60, 60, 600, 86_400]);
+    // now and then "never delete": a limit beyond anything a time stamp plus the limit can represent
+    let d_opt = if rng.chance(0.04) { *rng.pick(&[9_000_000_000_000i64, 1_000_000_000_000_000, i64::MAX]) } else { *rng.pick(&[1i64, 5, 5, 60, 60, 600, 86_400]) };
+    // the schedule below is laid out for a limit of at most a day
+    let d = d_opt.min(86_400);
     let n_ac = match rng.below(20) { 0 | 1 => rng.range(8, 16), 2 => rng.range(24, 60), _ => rng.range(2, 5) } as usize;
     let addrs = gen::addresses(rng, n_ac);
     let mut acs: Vec<gen::Ac> = addrs.iter().map(|&a| gen::aircraft(rng, a)).collect();
-    let mut args = vec![format!("--delete-after={}", d)];
+    let mut args = vec![format!("--delete-after={}", d_opt)];
     if rng.chance(0.45) { args.push("--use-update-method".into()); }
     if rng.chance(0.3) { args.push("--relaxed".into()); }
     if rng.chance(0.25) {
@@ -173,9 +176,11 @@ fn check(case: &Case, st: &mut Stats) -> Vec<Violation> {
             if s.tag.contains("clock-back") { st.probe("clock_set_back"); }
             if let Some(&t) = model.last.get(&a) {
                 let gap = s.t_us - t;
-                if gap == d * 1_000_000 { st.probe("silence_exactly_d"); }
-                if gap == d * 1_000_000 - 1 { st.probe("silence_d_minus_1us"); }
-                if gap >= (d - 1).max(0) * 1_000_000 && gap < d * 1_000_000 { refreshed_after_silence += 1; }
+                let d_us = d.saturating_mul(1_000_000);
+                if gap == d_us { st.probe("silence_exactly_d"); }
+                if gap == d_us - 1 { st.probe("silence_d_minus_1us"); }
+                if gap >= (d - 1).max(0).saturating_mul(1_000_000) && gap < d_us { refreshed_after_silence += 1; }
+                if d > 1_000_000_000 && gap > 86_400_000_000 { st.probe("never_delete_long_silence"); }
             }
             model.accept(a, s.t_us);
             ever.insert(a);
